@@ -1,3 +1,4 @@
+import Secp.Gen.Consts
 import Secp.Proofs.DriversBip32
 import Secp.Proofs.Bip32
 import Secp.Proofs.Slices
@@ -78,5 +79,14 @@ theorem unmarshalBinary_receiver_indep (k k' : Bytes × Nat × Bytes × Nat × B
 theorem version_regenerated (v : Bytes) :
     Secp.Gen.Drivers.versionIsPrivateGen v = versionIsPrivate v ∧ Secp.Gen.Drivers.versionToPublicGen v = versionToPublic v :=
   ⟨Secp.Proofs.DriversBip32.versionIsPrivate_regenerated v, Secp.Proofs.DriversBip32.versionToPublic_regenerated v⟩
+
+
+/-- the curve parameters the code reads through `curveParams` / `S256().N` / `Params().N` (regenerated literals, pass T3)
+    are the constants of the specification: pass T8 writes `N` / `P` for them on the strength of this theorem -/
+theorem curve_params_are_spec :
+    Secp.Gen.Consts.curveParams_N = Secp.Spec.N ∧ Secp.Gen.Consts.curveParams_P = Secp.Spec.P ∧
+    Secp.Gen.Consts.curveParams_Gx = Secp.Spec.Gx ∧ Secp.Gen.Consts.curveParams_Gy = Secp.Spec.Gy ∧
+    Secp.Gen.Consts.curveParams_B = 7 ∧ Secp.Gen.Consts.curveParams_N_neg = false ∧ Secp.Gen.Consts.curveParams_P_neg = false := by
+  decide
 
 end Secp.Props.C13
